@@ -1,4 +1,5 @@
 import BsVerif.Lemmas.Dap
+import BsVerif.Lemmas.DapThreads
 import BsVerif.Gen.DapDispatch
 /-!
 # C12 — the DAP adapter speaks the protocol for any request history
@@ -197,10 +198,10 @@ theorem C12_never_silent (s : Sess) (r : Req) (h : Hint) (ha : s.alive = true) :
 /-- the rule of `run`: when the handler returns `Err`, the last response of the answer is an error
 response for this request, and the session goes on -/
 theorem C12_error_not_silence_run_rule (s : Sess) (r : Req) (h : Hint) (ha : s.alive = true)
-    (he : (plan s.dbg s.bpRecords r h).2 = .err) :
+    (he : (plan s r h).2 = .err) :
     ∃ s' out pre, runStep s r h = some (s', out) ∧ resps out = pre ++ [Msg.resp r.cmd false r.seq] := by
   refine ⟨(exec r s (fullPlan s r h)).1, (exec r s (fullPlan s r h)).2,
-    (respondActs (plan s.dbg s.bpRecords r h).1).map (fun ok => Msg.resp r.cmd ok r.seq), by simp [runStep, ha], ?_⟩
+    (respondActs (plan s r h).1).map (fun ok => Msg.resp r.cmd ok r.seq), by simp [runStep, ha], ?_⟩
   rw [resps_exec]
   simp [fullPlan, he, runRule, respondActs]
 
